@@ -116,10 +116,17 @@ def h_streett_transducer(ctx):
     else:
         f = gr1.make_streett_transducer
     with contextlib.redirect_stdout(io.StringIO()):
-        ctx.call(f, z, [list(y) for y in yij],
-                 [[list(xk) for xk in xjk] for xjk in xijk], aut,
-                 allowed=lambda e: isinstance(e, AssertionError),
-                 label='make_streett_transducer')
+        if ctx.p.get('keyword', not ctx.p.get('moore')):
+            # the documented parameter names, given by keyword
+            ctx.call(f, z=z, yij=[list(y) for y in yij],
+                     xijk=[[list(xk) for xk in xjk] for xjk in xijk], aut=aut,
+                     allowed=lambda e: isinstance(e, AssertionError),
+                     label='make_streett_transducer')
+        else:
+            ctx.call(f, z, [list(y) for y in yij],
+                     [[list(xk) for xk in xjk] for xjk in xijk], aut,
+                     allowed=lambda e: isinstance(e, AssertionError),
+                     label='make_streett_transducer')
     impl = w.term(aut.action['impl'])
     # ---- 5. frame
     w.oblige('make_streett_transducer.frame: declares exactly _goal and _goal\' (hint 0..n_goals-1); varlist[impl] = sys variables + _goal',
@@ -232,10 +239,16 @@ def h_rabin_transducer(ctx):
     snap_vars = set(aut.vars)
     f = ctx.fn(gr1.make_rabin_transducer) if w.symbolic else gr1.make_rabin_transducer
     with contextlib.redirect_stdout(io.StringIO()):
-        ctx.call(f, list(zk), [list(y) for y in yki],
-                 [[[list(xr) for xr in xjr] for xjr in xijr] for xijr in xkijr],
-                 aut, allowed=lambda e: isinstance(e, AssertionError),
-                 label='make_rabin_transducer')
+        if ctx.p.get('keyword', not ctx.p.get('moore')):
+            ctx.call(f, zk=list(zk), yki=[list(y) for y in yki],
+                     xkijr=[[[list(xr) for xr in xjr] for xjr in xijr] for xijr in xkijr],
+                     aut=aut, allowed=lambda e: isinstance(e, AssertionError),
+                     label='make_rabin_transducer')
+        else:
+            ctx.call(f, list(zk), [list(y) for y in yki],
+                     [[[list(xr) for xr in xjr] for xjr in xijr] for xijr in xkijr],
+                     aut, allowed=lambda e: isinstance(e, AssertionError),
+                     label='make_rabin_transducer')
     impl = w.term(aut.action['impl'])
     w.oblige('make_rabin_transducer.frame: declares exactly _hold (0..n_holds, last value = none), _goal (0..n_goals-1) and their primed copies; varlist[impl] = sys variables + _hold + _goal',
              z3.BoolVal(set(aut.vars) - snap_vars == {'_goal', "_goal'", '_hold', "_hold'"}
